@@ -462,6 +462,18 @@ def load(config="W", repo=REPO, quiet=False):
             if not any(c == cn for c, _ in fx.files):
                 raise MissingAnchor(f"fact file for crate {cn} missing in config W")
     _loaded[key] = fx
+    if config == "W":
+        from . import hirq
+
+        def resolve(path, fx=fx):
+            try:
+                c = fx.const(path)
+            except Exception:
+                return None
+            import re as _re
+            m = _re.fullmatch(r"(-?\d+)_?[iu](8|16|32|64|128|size)", str((c or {}).get("val", "")))
+            return int(m.group(1)) if m else None
+        hirq.CONST_RESOLVER = resolve
     return fx
 
 
